@@ -174,7 +174,11 @@ func (r *sortReg) structSortOf(t types.Type, st *types.Struct) string {
 	var fl []string
 	for i := 0; i < st.NumFields(); i++ {
 		f := st.Field(i)
-		sel := q(strings.Trim(sortSym, "|") + "!" + f.Name())
+		fname := f.Name()
+		if fname == "_" {
+			fname = fmt.Sprintf("_%d", i) // blank fields may repeat
+		}
+		sel := q(strings.Trim(sortSym, "|") + "!" + fname)
 		info.sels = append(info.sels, sel)
 		info.fields = append(info.fields, f)
 		fl = append(fl, "("+sel+" "+r.sortOf(f.Type())+")")
